@@ -32,9 +32,10 @@ class R2C(Unit):
     def build(self, S):
         if self.dtype == "complex128":
             z = S.carray("z", self.shape)
-        elif self.dtype == "int64":
-            z = S.iarray("z", self.shape, -50, 50)
-            z = SymND(z, np.int64) if S.symbolic else np.asarray(z, dtype=np.int64)
+        elif np.dtype(self.dtype).kind in "iub":
+            lo, hi = {"b": (0, 1), "u": (0, 50), "i": (-50, 50)}[np.dtype(self.dtype).kind]
+            z = S.iarray("z", self.shape, lo, hi)
+            z = SymND(z, np.dtype(self.dtype)) if S.symbolic else np.asarray(z).astype(self.dtype)
         else:
             z = S.rarray("z", self.shape, np.dtype(self.dtype))
         return {"z": z}
@@ -58,7 +59,7 @@ class R2C(Unit):
         zin = np.moveaxis(plain(a["z"]) if S.symbolic else np.asarray(a["z"]), ax, 0)
         o = np.moveaxis(plain(out) if S.symbolic else np.asarray(out), ax, 0)
         mag = magnitude_bound(S, a["z"])
-        tol = (2e-5 if self.dtype == "float32" else 1e-9) * mag * max(1, N)
+        tol = (2e-5 if self.dtype == "float32" else (2e-2 if self.dtype == "float16" else 1e-9)) * mag * max(1, N)
         bad_re, bad_an = [], []
         for ix in np.ndindex(*zin.shape[1:]):
             col = [cterm(zin[(n,) + ix]) for n in range(N)]
@@ -115,6 +116,9 @@ def units(tier):
             us.append(R2C((2, N, 2), 1, "float64" if N % 2 else "int64"))
             us.append(R2C((N, 1, 2), 0, "float32"))
             us.append(R2C((1, 2, N), -1, "float64"))
+    for dt in ("int8", "uint8", "int16", "uint16", "int32", "uint32", "uint64", "float16", "bool"):
+        us.append(R2C((2,), 0, dt))
+        us.append(R2C((2, 3), 1, dt))
     us.append(R2C((3,), 0, "complex128"))
     us.append(R2C((2, 2), 1, "complex128"))
     return us
